@@ -152,7 +152,13 @@ def mps_case(ctx, idx, rng):
         psi = ptn.MPS(psi.qd, psi.qD, fill=complex(rng.choice([0.5, 1.0]), rng.choice([0.0, -1.0])) if rng.random() < 0.5 else float(rng.choice([0.5, -2.0])))
     struct = STRUCT[(idx // 3) % len(STRUCT)]
     add_structure(rng, psi, False, struct)
-    if idx % 11 == 6 and kind in ('complex', 'real') and prof != 'deficient':
+    if idx % 17 == 5:
+        # a quantum-number-free complex state whose unfoldings satisfy M^T M = 1 but NOT M^H M = 1 (complex-orthogonal columns)
+        layout, kind, prof = 'zero', 'complex', 'random'
+        qd = np.zeros(d, dtype=int)
+        psi = gen.rand_mps(rng, qd, L, 'random', Dmax=4, kind='complex')
+        struct = 'none+' + gen.pseudo_canonical(rng, psi, 'complex-orthogonal')
+    elif idx % 11 == 6 and kind in ('complex', 'real') and prof != 'deficient':
         struct = struct + '+' + gen.pseudo_canonical(rng, psi)          # looks canonical (norm coincidences), is not
     if idx % 8 == 3 and layout not in ('pairs', 'huge'):
         # quantum numbers stored in a narrower integer type (values are small: no overflow in any legitimate sum)
